@@ -1,184 +1,59 @@
 """
-C13 — what is read off the source for the shortest-distance matrix (DESIGN 3.1):
+C13 — what is read off the tree under test for the shortest-distance matrix (DESIGN 3.1), and written to
+lean/ShelxModel/Extracted/SdmC13.lean:
 
-  shelxfile/shelx/sdm.py  SDM.calc_sdm      the numeric thresholds of the per-pair loop
-                                              (5.3 cut, 0.0001 identity bias, 0.01 coincidence limit, 1.2 bond
-                                              factor, 0.5 wrap shift, 1000000 start value, 0.0 "no bond" limit)
-                                            and the PART/hydrogen condition of the bond criterion, translated
-                                            *as an expression* to a Lean Bool function (`bondAllowed`), so that
-                                            `covalent_iff_rule` is re-proved about what the code says now
-  shelxfile/misc/elements.py element2cov     covalent radii -> `covRadius : List (String × Rat)`
-  shelxfile/atoms/atom.py    is_hydrogen     the element set that counts as hydrogen -> `hydrogenElements`
+  SDM.calc_sdm       the numeric thresholds of the per-pair loop (5.3 cut, 0.0001 identity bias, 0.01 coincidence limit,
+                     1.2 bond factor, 0.5 wrap shift, 1000000 start value, 0.0 "no bond" limit) and the PART/hydrogen
+                     condition of the bond criterion as a Lean Bool function (`bondAllowed`), so that
+                     `covalent_iff_rule` is re-proved about what the code decides now
+  Atom.radius        covalent radius per element symbol -> `covRadius : List (String × Rat)`
+  Atom.is_hydrogen   the element symbols that count as hydrogen -> `hydrogenElements`
 
-Writes lean/ShelxModel/Extracted/SdmC13.lean. Pure `ast`, nothing is imported or executed.
+The reading is SEMANTIC: `probe_c13.py` (a separate interpreter that imports the package from the tree under test) runs
+`SDM(shx).calc_sdm()` on small structures with symbolic coordinates, radii and PART numbers and recognises every
+constant by what it is compared with and what that comparison decides (see the docstring there). The spelling of
+sdm.py — helper methods, named constants, renamed locals, loops, early returns, merged conditions — does not matter.
+What no longer has the expected meaning is reported as lost and the last known value is written so that the package
+still builds; nothing is guessed.
 """
 from __future__ import annotations
 
-import ast
+import json
+import subprocess
+import sys
 from fractions import Fraction
 from pathlib import Path
 
 import extract
-from extract import HEADER, find, lean_list, lean_rat, lean_str, parse, write_if_changed
+from extract import HEADER, lean_list, lean_rat, lean_str, write_if_changed
 
+HERE = Path(__file__).resolve().parent
 PROPS = ['C13']
 OUT = 'SdmC13.lean'
 
-# last known shape (used when the source no longer fits the recogniser, so that the package still builds;
+# last known shape (used when the tree no longer has the expected meaning, so that the package still builds;
 # the lost-message makes the check report the broken tie)
 LAST = dict(cut='5.3', bias='0.0001', eps='0.01', factor='1.2', half='0.5', big='1000000', nobond='0.0',
             bond='(((!h1) && (!h2)) && (decide (p1 * p2 = 0))) || (decide (p1 = p2))',
-            hyd=['H', 'D', 'T'])
+            hyd=['D', 'H', 'T'])
+KEYS = ('cut', 'bias', 'eps', 'factor', 'half', 'big', 'nobond')
 
 
-def _num(node):
-    if isinstance(node, ast.Constant) and isinstance(node.value, (int, float)) and not isinstance(node.value, bool):
-        return node.value
-    if isinstance(node, ast.UnaryOp) and isinstance(node.op, ast.USub):
-        v = _num(node.operand)
-        return None if v is None else -v
-    return None
-
-
-def _attr_path(node):
-    """a.b.c -> ['a','b','c'] (None if not a pure attribute chain)"""
-    out = []
-    while isinstance(node, ast.Attribute):
-        out.append(node.attr)
-        node = node.value
-    if isinstance(node, ast.Name):
-        out.append(node.id)
-        return out[::-1]
-    return None
-
-
-class NoFit(Exception):
-    pass
-
-
-def bond_expr(node, atoms=('atom1', 'atom2', 'at1', 'at2')) -> str:
-    """the test of the bond criterion's `if` as a Lean Bool expression over h1 h2 : Bool, p1 p2 : Int"""
-    if isinstance(node, ast.BoolOp):
-        op = ' && ' if isinstance(node.op, ast.And) else ' || '
-        # Python's and/or are left-nested n-ary; Lean's && and || associate to the left as well
-        parts = [bond_expr(v) for v in node.values]
-        s = parts[0]
-        for p in parts[1:]:
-            s = f'({s}{op}{p})'
-        return s
-    if isinstance(node, ast.UnaryOp) and isinstance(node.op, ast.Not):
-        return f'(!{bond_expr(node.operand)})'
-    if isinstance(node, ast.Compare) and len(node.ops) == 1:
-        rel = {ast.Eq: '=', ast.NotEq: '≠', ast.Lt: '<', ast.LtE: '≤', ast.Gt: '>', ast.GtE: '≥'}.get(type(node.ops[0]))
-        if rel is None:
-            raise NoFit(ast.dump(node))
-        return f'(decide ({int_expr(node.left)} {rel} {int_expr(node.comparators[0])}))'
-    p = _attr_path(node)
-    if p and p[-1] in ('ishydrogen', 'is_hydrogen') and len(p) >= 2 and p[-2] in atoms:
-        return 'h1' if p[-2] in ('atom1', 'at1') else 'h2'
-    raise NoFit(ast.dump(node))
-
-
-def int_expr(node) -> str:
-    v = _num(node)
-    if isinstance(v, int):
-        return f'({v} : Int)'
-    if isinstance(node, ast.BinOp) and isinstance(node.op, (ast.Mult, ast.Add, ast.Sub)):
-        op = {ast.Mult: '*', ast.Add: '+', ast.Sub: '-'}[type(node.op)]
-        return f'({int_expr(node.left)} {op} {int_expr(node.right)})'
-    p = _attr_path(node)
-    if p and p[-2:] == ['part', 'n'] and len(p) >= 3 and p[-3] in ('atom1', 'atom2', 'at1', 'at2'):
-        return 'p1' if p[-3] in ('atom1', 'at1') else 'p2'
-    raise NoFit(ast.dump(node))
-
-
-def read_sdm(repo: Path):
-    tree = parse(repo, 'shelxfile/shelx/sdm.py')
-    fn = find(tree, 'SDM.calc_sdm')
-    if fn is None:
-        raise NoFit('SDM.calc_sdm not found')
-    got = {}
-    # the operator loop: `for n, symop in enumerate(...symmcards)` nested in the two atom loops
-    oploop = None
-    for node in ast.walk(fn):
-        if isinstance(node, ast.For) and isinstance(node.target, ast.Tuple) and 'symmcards' in ast.dump(node.iter) \
-                and any(isinstance(x, ast.Continue) for x in ast.walk(node)):
-            oploop = node
-    if oploop is None:
-        raise NoFit('operator loop of calc_sdm not found')
-    for node in ast.walk(oploop):
-        # if dk > CUT: continue
-        if isinstance(node, ast.If) and len(node.body) == 1 and isinstance(node.body[0], ast.Continue) \
-                and isinstance(node.test, ast.Compare) and isinstance(node.test.ops[0], ast.Gt):
-            got['cut'] = _num(node.test.comparators[0])
-        # (x > EPS) and (mind >= x)
-        if isinstance(node, ast.If) and isinstance(node.test, ast.BoolOp) and isinstance(node.test.op, ast.And):
-            for v in node.test.values:
-                if isinstance(v, ast.Compare) and isinstance(v.ops[0], ast.Gt) and _num(v.comparators[0]) is not None:
-                    got['eps'] = _num(v.comparators[0])
-        # identity bias: `if n: dk += BIAS`  or  `x = dk + BIAS if n else dk`
-        if isinstance(node, ast.If) and isinstance(node.test, ast.Name) and len(node.body) == 1 \
-                and isinstance(node.body[0], ast.AugAssign) and isinstance(node.body[0].op, ast.Add):
-            got['bias'] = _num(node.body[0].value)
-        if isinstance(node, ast.IfExp) and isinstance(node.test, ast.Name) and isinstance(node.body, ast.BinOp) \
-                and isinstance(node.body.op, ast.Add):
-            got['bias'] = _num(node.body.right)
-        # wrap shift: `... + HALF` in the assignment of D and `v - HALF`
-        if isinstance(node, ast.Assign) and isinstance(node.value, ast.BinOp) and isinstance(node.value.op, ast.Add) \
-                and _num(node.value.right) is not None and 'prime_array' in ast.dump(node.value.left):
-            got['half'] = _num(node.value.right)
-        if isinstance(node, ast.ListComp) and isinstance(node.elt, ast.BinOp) and isinstance(node.elt.op, ast.Sub) \
-                and _num(node.elt.right) is not None:
-            got['half2'] = _num(node.elt.right)
-    for node in ast.walk(fn):
-        if isinstance(node, ast.Assign) and len(node.targets) == 1 and isinstance(node.targets[0], ast.Name):
-            name = node.targets[0].id
-            if name == 'mind' and _num(node.value) is not None:
-                got['big'] = _num(node.value)
-            if name == 'dddd':
-                if isinstance(node.value, ast.BinOp) and isinstance(node.value.op, ast.Mult):
-                    f = _num(node.value.right) if _num(node.value.right) is not None else _num(node.value.left)
-                    if f is not None and 'radius' in ast.dump(node.value):
-                        got['factor'] = f
-                elif _num(node.value) is not None:
-                    got['nobond'] = _num(node.value)
-        # the bond criterion: the `if` whose body assigns dddd from the radii
-        if isinstance(node, ast.If) and any(isinstance(s, ast.Assign) and 'radius' in ast.dump(s) for s in node.body):
-            got['bond'] = bond_expr(node.test)
-    missing = [k for k in ('cut', 'bias', 'eps', 'factor', 'half', 'half2', 'big', 'nobond', 'bond') if got.get(k) is None]
-    if missing:
-        raise NoFit('calc_sdm: not recognised: ' + ', '.join(missing))
-    if got['half'] != got['half2']:
-        raise NoFit(f'calc_sdm: wrap adds {got["half"]} and subtracts {got["half2"]}')
-    return {k: (v if k == 'bond' else repr(v)) for k, v in got.items()}
-
-
-def read_radii(repo: Path):
-    tree = parse(repo, 'shelxfile/misc/elements.py')
-    for node in tree.body:
-        if isinstance(node, ast.Assign) and any(isinstance(t, ast.Name) and t.id == 'element2cov' for t in node.targets):
-            d = ast.literal_eval(node.value)
-            src = {}
-            for k, v in zip(node.value.keys, node.value.values):
-                src[ast.literal_eval(k)] = ast.unparse(v)
-            return [(k, src[k]) for k in d]
-    raise NoFit('element2cov not found')
-
-
-def read_hydrogen(repo: Path):
-    tree = parse(repo, 'shelxfile/atoms/atom.py')
-    fn = find(tree, 'Atom.is_hydrogen')
-    if fn is None:
-        raise NoFit('Atom.is_hydrogen not found')
-    for node in ast.walk(fn):
-        if isinstance(node, ast.Compare) and isinstance(node.ops[0], ast.In) and 'element' in ast.dump(node.left):
-            return sorted(ast.literal_eval(node.comparators[0]))
-    raise NoFit('Atom.is_hydrogen: element set not recognised')
+def run_probe(repo: Path) -> dict:
+    p = subprocess.run([sys.executable, str(HERE / 'probe_c13.py'), '--repo', str(repo)],
+                       stdout=subprocess.PIPE, stderr=subprocess.PIPE, text=True, timeout=300,
+                       env={'PATH': '/usr/bin:/bin', 'PYTHONDONTWRITEBYTECODE': '1', 'PYTHONHASHSEED': '0'})
+    if p.returncode != 0:
+        return dict(lost=[f'probe_c13.py failed: {p.stderr[-400:]}'])
+    try:
+        return json.loads(p.stdout[p.stdout.index('{'):])
+    except ValueError:
+        return dict(lost=[f'probe_c13.py printed no result: {p.stdout[-200:]} {p.stderr[-200:]}'])
 
 
 def render(c, radii, hyd) -> str:
     L = [HEADER, 'namespace Shelx.C13.Extracted', '']
-    L.append('/-! thresholds of `SDM.calc_sdm`, exact values of the decimal literals in the source -/')
+    L.append('/-! thresholds of `SDM.calc_sdm`, exact values of the decimal constants the code compares with -/')
     for lean, key, doc in [('cutQ', 'cut', 'distances above this are not considered (`if dk > …: continue`)'),
                            ('biasQ', 'bias', 'added to the distance of every operator but the first'),
                            ('epsQ', 'eps', 'distances up to this are treated as the atom itself'),
@@ -186,18 +61,21 @@ def render(c, radii, hyd) -> str:
                            ('halfQ', 'half', 'the shift of the wrap `D + ½ - floor(D + ½) - ½`'),
                            ('bigQ', 'big', 'start value of the running minimum'),
                            ('nobondQ', 'nobond', 'limit used where the PART/hydrogen condition forbids a bond')]:
+        if key == 'big' and c.get('note'):
+            doc += ' (' + c['note'] + ')'
         L.append(f'/-- {doc} -/')
         L.append(f'def {lean} : Rat := {lean_rat(c[key])}')
     L.append('')
-    L.append('/-- the PART/hydrogen condition of the bond criterion, translated from the source expression -/')
+    L.append('/-- the PART/hydrogen condition of the bond criterion: the decision tree of the tests the code makes on the PART\n'
+             '    numbers, per combination of hydrogen flags (traced by running the code) -/')
     L.append('def bondAllowed (h1 h2 : Bool) (p1 p2 : Int) : Bool :=')
     L.append('  ' + c['bond'])
     L.append('')
-    L.append('/-- `element2cov` (insertion order) -/')
+    L.append('/-- `Atom.radius` of a fresh atom, per element symbol of at most two letters that has one -/')
     L.append('def covRadius : List (String × Rat) :=')
     L.append('  ' + lean_list(f'({lean_str(k)}, {lean_rat(v)})' for k, v in radii))
     L.append('')
-    L.append('/-- the element symbols `Atom.is_hydrogen` accepts -/')
+    L.append('/-- the element symbols of at most two letters `Atom.is_hydrogen` accepts -/')
     L.append('def hydrogenElements : List String := ' + lean_list(lean_str(h) for h in hyd))
     L.append('')
     L.append('end Shelx.C13.Extracted')
@@ -206,24 +84,32 @@ def render(c, radii, hyd) -> str:
 
 @extract.extractor
 def tables_c13(repo: Path, out: Path):
-    lost = []
+    r = run_probe(Path(repo))
+    lost = [dict(props=PROPS, what=f'sdm: {w}') for w in r.get('lost', [])]
+    c = dict(LAST)
+    got = r.get('consts')
     try:
-        c = read_sdm(repo)
-    except (NoFit, OSError, SyntaxError, ValueError, IndexError, AttributeError) as e:
-        lost.append(dict(props=PROPS, what=f'sdm.py thresholds/bond criterion no longer fit the recogniser: {e}'))
-        c = dict(LAST)
-    try:
-        radii = read_radii(repo)
-        for k, v in radii:
+        if got is not None:
+            for k in KEYS:
+                Fraction(got[k])
+            c.update({k: got[k] for k in KEYS})
+            if r.get('note'):
+                c['note'] = str(r['note']).replace('-/', '- /')
+        elif not lost:
+            raise KeyError('consts')
+        if r.get('bond'):
+            c['bond'] = r['bond']
+        elif not lost:
+            raise KeyError('bond')
+        radii = [(str(k), str(v)) for k, v in r.get('radii', [])]
+        for _, v in radii:
             Fraction(v)
-    except (NoFit, OSError, SyntaxError, ValueError) as e:
-        lost.append(dict(props=PROPS, what=f'elements.py covalent radii not readable: {e}'))
-        radii = []
-    try:
-        hyd = read_hydrogen(repo)
-    except (NoFit, OSError, SyntaxError, ValueError) as e:
-        lost.append(dict(props=PROPS, what=f'atom.py hydrogen test not readable: {e}'))
-        hyd = LAST['hyd']
+        hyd = [str(h) for h in r['hyd']] if 'hyd' in r else LAST['hyd']
+        if ('radii' not in r or 'hyd' not in r) and not lost:
+            raise KeyError('radii / hyd')
+    except (KeyError, ValueError, TypeError) as e:
+        lost.append(dict(props=PROPS, what=f'sdm: result of probe_c13.py not usable: {type(e).__name__}: {e}'))
+        c, radii, hyd = dict(LAST), [], LAST['hyd']
     write_if_changed(out / OUT, render(c, radii, hyd))
     return lost
 
